@@ -83,11 +83,16 @@ def histReasm : List Bytes → List FrameObs → Bool
 /-- reassembly over the whole history -/
 def wholeOk (expect : Bytes) (obs : List FrameObs) : Bool := obs.flatMap FrameObs.reasm == expect
 
-/-- the whole predicate for codecs whose frames are reassembled one by one.
-    `p` = the packetizer as constructed (its `seq` the sequencer handed to `NewPacketizer`, its `ts`
-    the start timestamp). -/
+/-- the whole predicate for codecs whose frames are reassembled one by one, against an explicit
+    list of expected outputs (`expect[i]` = what frame i must reassemble to: the frame in the codec's
+    normal form).  `p` = the packetizer as constructed (its `seq` the sequencer handed to
+    `NewPacketizer`, its `ts` the start timestamp). -/
+def histOkE (p : Packetizer) (fs : List FrameIn) (expect : List Bytes) (obs : List FrameObs) : Bool :=
+  histTrain p (p.seq.seq + 1) p.ts fs obs && histReasm expect obs
+
+/-- … when the normal form is the frame itself -/
 def histOk (p : Packetizer) (fs : List FrameIn) (obs : List FrameObs) : Bool :=
-  histTrain p (p.seq.seq + 1) p.ts fs obs && histReasm (fs.map (·.frame)) obs
+  histOkE p fs (fs.map (·.frame)) obs
 
 /-- the whole predicate for codecs reassembled over the history -/
 def histOkWhole (p : Packetizer) (fs : List FrameIn) (expect : Bytes) (obs : List FrameObs) : Bool :=
@@ -128,6 +133,10 @@ def wfVP9Flex (st : VP9Pay) (pk : Packetizer) (fs : List FrameIn) : Bool :=
 def wfVP9 (st : VP9Pay) (pk : Packetizer) (frames : List VP9Frame) : Bool :=
   decide (vp9Pid st < 32768) && cfgOk pk && decide (overhead pk ≤ pk.mtu.toNat) &&
   frames.all (fun fr => Rtp.Pred.C12.proper st.flexible (fr.call pk.budget))
+
+/-- AV1: C13's bound (2 bytes for the payloader) and C13's hypotheses on every temporal unit -/
+def wfAV1 (pk : Packetizer) (frames : List AV1Frame) : Bool :=
+  cfgOk pk && decide (overhead pk + 2 ≤ pk.mtu.toNat) && frames.all AV1Frame.wf
 
 /-- H264: C10's bound (3 bytes for the payloader) and C10's hypotheses on every frame -/
 def wfH264 (pk : Packetizer) (frames : List H264Frame) : Bool :=
